@@ -21,21 +21,21 @@ theorem clampTimeout_pos {r : Nat} (h : r ≠ 0) : 1 ≤ clampTimeout r := by
     have : Gen.clientTimerClampSecs ≠ 0 := by simpa using hc
     omega
 
-theorem sum_rearm_le (l : List Entry) (id key t : Nat) :
-    ((l.map (rearmEntry id key t)).map (·.remainder)).sum ≤ (l.map (·.remainder)).sum := by
+theorem sum_rearm_le (l : List Entry) (id key t due : Nat) :
+    ((l.map (rearmEntry id key t due)).map (·.remainder)).sum ≤ (l.map (·.remainder)).sum := by
   induction l with
   | nil => exact Nat.le_refl _
   | cons x xs ih =>
     simp only [List.map_cons, List.sum_cons]
-    have : (rearmEntry id key t x).remainder ≤ x.remainder := by
+    have : (rearmEntry id key t due x).remainder ≤ x.remainder := by
       unfold rearmEntry; split
       · exact Nat.sub_le _ _
       · exact Nat.le_refl _
     omega
 
-theorem sum_rearm_lt {l : List Entry} {id key t : Nat} {en : Entry} (hf : l.find? (·.id == id) = some en)
+theorem sum_rearm_lt {l : List Entry} {id key t due : Nat} {en : Entry} (hf : l.find? (·.id == id) = some en)
     (hr : en.remainder ≠ 0) (ht : 1 ≤ t) :
-    ((l.map (rearmEntry id key t)).map (·.remainder)).sum + 1 ≤ (l.map (·.remainder)).sum := by
+    ((l.map (rearmEntry id key t due)).map (·.remainder)).sum + 1 ≤ (l.map (·.remainder)).sum := by
   induction l with
   | nil => cases hf
   | cons x xs ih =>
@@ -44,19 +44,19 @@ theorem sum_rearm_lt {l : List Entry} {id key t : Nat} {en : Entry} (hf : l.find
     split at hf
     · rename_i hx
       cases hf
-      have h1 := sum_rearm_le xs id key t
-      have : (rearmEntry id key t en).remainder = en.remainder - t := by
+      have h1 := sum_rearm_le xs id key t due
+      have : (rearmEntry id key t due en).remainder = en.remainder - t := by
         unfold rearmEntry; rw [if_pos hx]
       omega
     · rename_i hx
-      have : rearmEntry id key t x = x := by
+      have : rearmEntry id key t due x = x := by
         unfold rearmEntry; rw [if_neg (by simpa using hx)]
       rw [this]
       have := ih hf
       omega
 
-theorem rearmWith_again {s s' : St} {id t : Nat} {r : DelayQ × DelayQ.InsertRes × Bool}
-    (h : rearmWith s id t r = .again s') : ∃ key, s'.inflight = s.inflight.map (rearmEntry id key t) := by
+theorem rearmWith_again {s s' : St} {id t due : Nat} {r : DelayQ × DelayQ.InsertRes × Bool}
+    (h : rearmWith s id t due r = .again s') : ∃ key, s'.inflight = s.inflight.map (rearmEntry id key t due) := by
   obtain ⟨q', res, w⟩ := r
   cases res with
   | panic => simp [rearmWith] at h
@@ -81,7 +81,7 @@ theorem expireWith_again {s s' : St} {now : Nat} {r : DelayQ × DelayQ.PollRes} 
         unfold rearm at h
         obtain ⟨key, hk⟩ := rearmWith_again h
         unfold remSum; rw [hk]
-        have hrest : en.remainder - (now - e.whenMs * nsPerMs) ≠ 0 := by simpa using hne
+        have hrest : en.remainder - (now - en.dueAt) ≠ 0 := by simpa using hne
         have := clampTimeout_pos hrest
         exact sum_rearm_lt hf (by omega) (by omega)
       · cases h
